@@ -1,0 +1,5 @@
+//go:build !verif
+
+package port
+
+func verifYield(int) {}
